@@ -368,7 +368,7 @@ func ruleFdatasyncSibling(c *Ctx, id string) {
 				return "no return"
 			}
 			for _, r := range rets {
-				call, ok := r.Results[0].(*ssa.Call)
+				call, ok := returnedValue(r, 0).(*ssa.Call)
 				if !ok {
 					return "returns a value that is not the result of the sync primitive at " + c.P.Position(r.Pos())
 				}
